@@ -325,6 +325,12 @@ Proof.
     rewrite spec_meta_snoc, count_of_app. reflexivity.
 Qed.
 
+(** the chain-meta key of a rollback batch: one operation, so the store kind does not matter *)
+Lemma meta_after_del cfg cur : meta_after cfg [KDel 0] cur = None.
+Proof. unfold meta_after, apply_kind. destruct (c_ordered cfg), cur; reflexivity. Qed.
+Lemma meta_after_put cfg m cur : meta_after cfg [KPut 0 m] cur = Some m.
+Proof. unfold meta_after, apply_kind. destruct (c_ordered cfg), cur; reflexivity. Qed.
+
 Section Refinement.
   Variable hash_hdr : header -> N.
   Variable root : list N -> N.
@@ -566,15 +572,15 @@ Section Refinement.
     rewrite E. assert (Hsp : firstn (length sp - N.to_nat (tlen sp - t)) sp = ttrunc t sp).
     { unfold ttrunc. f_equal. unfold tlen in *. lia. }
     rewrite Hsp in *. clear E.
-    destruct (t =? 0) eqn:E0.
-    - eexists. split; [reflexivity|]. split; [|reflexivity].
+    unfold meta_ops. cbn [d_meta_del_first cfg_fixed]. destruct (t =? 0) eqn:E0.
+    - rewrite meta_after_del. eexists. split; [reflexivity|]. split; [|reflexivity].
       assert (ttrunc t sp = []) as Hnil by (unfold ttrunc; replace (N.to_nat t) with 0%nat by lia; reflexivity).
       rewrite Hnil in *. constructor; cbn [cl_bf cl_ix cl_mem]; try reflexivity.
       apply ix_refines_fields. exact R.
     - destruct (tget_some sp t) as [e He]; [lia|lia|].
       assert (Hg : tget (ttrunc t sp) t = Some e) by (rewrite tget_firstn, N.leb_refl; exact He).
       unfold bf_of at 1. cbn [bf_bodies]. rewrite tget_map, Hg. cbn [option_map].
-      rewrite (rf_txset _ _ I), He. cbn [option_map].
+      rewrite (rf_txset _ _ I), He. cbn [option_map]. rewrite meta_after_put.
       eexists. split; [reflexivity|]. split; [|reflexivity].
       assert (Hl : tlen (ttrunc t sp) = t) by (apply tlen_firstn; lia).
       assert (Hm : mkMeta (h_number (b_hdr (e_blk e))) (b_hash (e_blk e)) (count_of (ttrunc t sp)) = spec_meta (ttrunc t sp)).
@@ -647,6 +653,7 @@ Section Observe.
   Proof.
     intro Href. unfold observe, expected. f_equal.
     - unfold get_chain_meta. apply (rf_mem _ _ Href).
+    - apply (rf_meta _ _ Href).
     - apply map_ext. intro h. apply observe_h_expected. exact Href.
     - apply map_ext. intro x. apply observe_x_expected. exact Href.
     - apply map_ext. intro t. apply observe_t_expected. exact Href.
@@ -1092,10 +1099,10 @@ Qed.
 Lemma obs_eqb_spec a b : obs_eqb a b = true <-> a = b.
 Proof.
   destruct a, b. unfold obs_eqb. cbn.
-  rewrite !andb_true_iff, cmeta_eqb_spec, (list_eqb_spec hobs_eqb hobs_eqb_spec),
+  rewrite !andb_true_iff, !cmeta_eqb_spec, (list_eqb_spec hobs_eqb hobs_eqb_spec),
     (list_eqb_spec _ (res_eqb_spec block_eqb block_eqb_spec)), (list_eqb_spec tobs_eqb tobs_eqb_spec). split.
-  - intros [[[? ?] ?] ?]. subst. reflexivity.
-  - intro H. inversion H. auto.
+  - intros [[[[? ?] ?] ?] ?]. subst. reflexivity.
+  - intro H. inversion H. auto 10.
 Qed.
 
 Lemma forall2b_spec {A B} (f : A -> B -> bool) (P : A -> B -> Prop) :
@@ -1128,7 +1135,7 @@ Qed.
 Theorem agrees_b_spec U sp o : agrees_b U sp o = true <-> agrees U sp o.
 Proof.
   unfold agrees_b, agrees.
-  rewrite !andb_true_iff, cmeta_eqb_spec, (list_eqb_spec hobs_eqb hobs_eqb_spec),
+  rewrite !andb_true_iff, !cmeta_eqb_spec, (list_eqb_spec hobs_eqb hobs_eqb_spec),
     (list_eqb_spec _ (res_eqb_spec block_eqb block_eqb_spec)), (forall2b_spec _ _ (tx_good_b_spec sp)).
   tauto.
 Qed.
@@ -1349,3 +1356,191 @@ Section Final.
     intros H Hk. apply prop_trace_model; [exact hash_inj|apply inv_init|exact H|exact Hk].
   Qed.
 End Final.
+
+(** * Storage batches and the two store kinds *)
+Section Batches.
+  Context {V : Type}.
+
+  (** the last operation of the batch that touches key [k] *)
+  Fixpoint last_op (k : N) (ops : list (kvop V)) : option (kvop V) :=
+    match ops with
+    | [] => None
+    | o :: r => match last_op k r with
+                | Some x => Some x
+                | None => if op_key o =? k then Some o else None
+                end
+    end.
+
+  Lemma nlookup_apply_seq k ops : forall m,
+    nlookup k (apply_seq ops m) =
+    match last_op k ops with
+    | Some (KPut _ v) => Some v
+    | Some (KDel _) => None
+    | None => nlookup k m
+    end.
+  Proof.
+    induction ops as [|o r IH]; intro m; [reflexivity|].
+    destruct o as [k' v|k']; cbn [apply_seq last_op op_key]; rewrite IH;
+      destruct (last_op k r) as [x|]; try reflexivity.
+    - rewrite nlookup_nset. destruct (k' =? k) eqn:E1; destruct (k =? k') eqn:E2; try lia; reflexivity.
+    - rewrite nlookup_nremove. destruct (k' =? k) eqn:E1; destruct (k =? k') eqn:E2; try lia; reflexivity.
+  Qed.
+
+  Lemma last_op_filter_keep (p : kvop V -> bool) k ops :
+    (forall o, In o ops -> op_key o = k -> p o = true) -> last_op k (filter p ops) = last_op k ops.
+  Proof.
+    induction ops as [|o r IH]; intro H; [reflexivity|]. cbn [filter last_op].
+    assert (Hr : forall o', In o' r -> op_key o' = k -> p o' = true) by (intros; apply H; [right|]; assumption).
+    destruct (p o) eqn:Ep; cbn [last_op]; rewrite (IH Hr); [reflexivity|].
+    destruct (last_op k r); [reflexivity|]. destruct (op_key o =? k) eqn:E; [|reflexivity].
+    rewrite (H o (or_introl eq_refl)) in Ep by lia. discriminate.
+  Qed.
+
+  Lemma last_op_filter_drop (p : kvop V -> bool) k ops :
+    (forall o, In o ops -> op_key o = k -> p o = false) -> last_op k (filter p ops) = None.
+  Proof.
+    induction ops as [|o r IH]; intro H; [reflexivity|]. cbn [filter].
+    assert (Hr : forall o', In o' r -> op_key o' = k -> p o' = false) by (intros; apply H; [right|]; assumption).
+    destruct (p o) eqn:Ep; [|apply IH; exact Hr]. cbn [last_op]. rewrite (IH Hr).
+    destruct (op_key o =? k) eqn:E; [|reflexivity]. rewrite (H o (or_introl eq_refl)) in Ep by lia. discriminate.
+  Qed.
+
+  Lemma last_op_in k ops x : last_op k ops = Some x -> In x ops /\ op_key x = k.
+  Proof.
+    induction ops as [|o r IH]; [discriminate|]. cbn [last_op]. destruct (last_op k r) as [y|].
+    - intro H. inversion H; subst. destruct (IH eq_refl). split; [right|]; assumption.
+    - destruct (op_key o =? k) eqn:E; [|discriminate]. intro H. inversion H; subst. split; [left; reflexivity|lia].
+  Qed.
+
+  (** no key both put and deleted in the batch: both store kinds give the same store *)
+  Theorem apply_kind_conflict_free (ops : list (kvop V)) : conflict_free ops ->
+    forall m k, nlookup k (apply_kind false ops m) = nlookup k (apply_kind true ops m).
+  Proof.
+    intros Hcf m k. unfold apply_kind. rewrite !nlookup_apply_seq.
+    destruct (last_op k ops) as [x|] eqn:El.
+    - destruct (last_op_in _ _ _ El) as [Hin Hk]. destruct x as [k' v|k'].
+      + (* a put on k exists: no delete on k *)
+        rewrite (last_op_filter_drop is_del); [rewrite (last_op_filter_keep is_put), El; [reflexivity|]|].
+        * intros o Ho Hok. destruct o; [reflexivity|]. exfalso.
+          exact (Hcf _ _ Hin Ho eq_refl eq_refl (eq_trans Hk (eq_sym Hok))).
+        * intros o Ho Hok. destruct o; [reflexivity|]. exfalso.
+          exact (Hcf _ _ Hin Ho eq_refl eq_refl (eq_trans Hk (eq_sym Hok))).
+      + (* a delete on k exists: no put on k *)
+        rewrite (last_op_filter_keep is_del), El; [reflexivity|].
+        intros o Ho Hok. destruct o; [|reflexivity]. exfalso.
+        exact (Hcf _ _ Ho Hin eq_refl eq_refl (eq_trans Hok (eq_sym Hk))).
+    - assert (Hnone : forall o, In o ops -> op_key o <> k).
+      { intros o Ho Hok. clear Hcf. induction ops as [|a r IH]; [exact Ho|]. cbn [last_op] in El.
+        destruct (last_op k r) eqn:Er; [discriminate|]. destruct (op_key a =? k) eqn:E; [discriminate|].
+        destruct Ho as [Ho|Ho]; [subst; lia|]. exact (IH eq_refl Ho). }
+      rewrite (last_op_filter_drop is_del) by (intros o Ho Hok; exfalso; exact (Hnone o Ho Hok)).
+      rewrite (last_op_filter_drop is_put) by (intros o Ho Hok; exfalso; exact (Hnone o Ho Hok)). reflexivity.
+  Qed.
+
+  (** homogeneous batches (only Puts, or only Deletes) are even applied identically *)
+  Lemma apply_kind_all_puts ord (ops : list (kvop V)) m :
+    forallb is_put ops = true -> apply_kind ord ops m = apply_seq ops m.
+  Proof.
+    intro H. destruct ord; [reflexivity|]. unfold apply_kind.
+    assert (filter is_put ops = ops /\ filter is_del ops = []) as [-> ->]; [|reflexivity].
+    induction ops as [|o r IH]; [auto|]. cbn in H. apply andb_true_iff in H. destruct H as [H1 H2].
+    destruct (IH H2) as [E1 E2]. unfold is_del in *. cbn [filter]. rewrite H1. cbn. rewrite E1, E2. auto.
+  Qed.
+  Lemma apply_kind_all_dels ord (ops : list (kvop V)) m :
+    forallb is_del ops = true -> apply_kind ord ops m = apply_seq ops m.
+  Proof.
+    intro H. destruct ord; [reflexivity|]. unfold apply_kind.
+    assert (filter is_put ops = [] /\ filter is_del ops = ops) as [-> ->]; [|reflexivity].
+    induction ops as [|o r IH]; [auto|]. cbn in H. apply andb_true_iff in H. destruct H as [H1 H2].
+    destruct (IH H2) as [E1 E2]. cbn [filter]. rewrite H1. unfold is_del in H1. apply negb_true_iff in H1.
+    rewrite H1, E1, E2. auto.
+  Qed.
+End Batches.
+
+(** ** every batch the (repaired) chain ledger builds is homogeneous per key family: the
+    persist batch is all Puts, the rollback batch is all Deletes plus ONE operation on the
+    chain-meta key -- so no key is both put and deleted, and the store kind is irrelevant *)
+Lemma put_txmetas_as_ops num bh txs : forall i m,
+  put_txmetas num bh i txs m = apply_seq (txmeta_puts num bh i txs) m /\ forallb is_put (txmeta_puts num bh i txs) = true.
+Proof. induction txs as [|t r IH]; intros i m; cbn; [auto|]. apply IH. Qed.
+Lemma del_txmetas_as_ops txs : forall m,
+  del_txmetas txs m = apply_seq (txmeta_dels txs) m /\ forallb is_del (txmeta_dels txs) = true.
+Proof. induction txs as [|t r IH]; intro m; cbn; [auto|]. apply IH. Qed.
+
+Theorem persist_batch_any_store ord c e ix :
+  let b := e_blk e in let num := h_number (b_hdr b) in
+  persist_index c e ix =
+  mkIx (apply_kind ord [KPut (b_hash b) num] (ix_bhash ix))
+       (apply_kind ord [KPut num (b_hash b)] (ix_height ix))
+       (apply_kind ord [KPut num (b_txs b)] (ix_txset ix))
+       (apply_kind ord (txmeta_puts num (b_hash b) 0 (b_txs b)) (ix_txmeta ix))
+       (Some (new_meta c e)).
+Proof.
+  cbv zeta. unfold persist_index.
+  destruct (put_txmetas_as_ops (h_number (b_hdr (e_blk e))) (b_hash (e_blk e)) (b_txs (e_blk e)) 0 (ix_txmeta ix)) as [E H].
+  rewrite E, (apply_kind_all_puts ord _ _ H). destruct ord; reflexivity.
+Qed.
+
+Theorem rollback_block_batch_any_store ord cfg ix0 i bf ixb cnt bf' ixb' cnt' :
+  remove_on_block cfg ix0 i (bf, ixb, cnt) = Some (bf', ixb', cnt') ->
+  exists bh txs,
+    ixb' = mkIx (apply_kind ord [KDel bh] (ix_bhash ixb))
+                (if d_rb_heightkey cfg then ix_height ixb else apply_kind ord [KDel i] (ix_height ixb))
+                (apply_kind ord [KDel i] (ix_txset ixb))
+                (apply_kind ord (txmeta_dels txs) (ix_txmeta ixb))
+                (ix_meta ixb).
+Proof.
+  unfold remove_on_block. destruct (tget (bf_bodies bf) i) as [[hd bh]|]; [|discriminate].
+  destruct (nlookup i (ix_txset ix0)) as [txs|]; [|discriminate].
+  destruct (tget (bf_ics bf) i) as [im|]; [|discriminate]. intro H. inversion H; subst.
+  exists bh, txs. destruct (del_txmetas_as_ops txs (ix_txmeta ixb)) as [E Hd].
+  rewrite E, (apply_kind_all_dels ord _ _ Hd). destruct ord; reflexivity.
+Qed.
+
+Lemma meta_ops_conflict_free cfg t m : d_meta_del_first cfg = false -> conflict_free (meta_ops cfg t m).
+Proof.
+  intro H. unfold meta_ops. rewrite H. destruct (t =? 0); intros a b [Ha|[]] [Hb|[]]; subst; cbn; discriminate.
+Qed.
+
+(** the store kind does not change any step of the repaired code *)
+Lemma remove_on_block_ext c1 c2 ix0 i st : d_rb_heightkey c1 = d_rb_heightkey c2 ->
+  remove_on_block c1 ix0 i st = remove_on_block c2 ix0 i st.
+Proof. intro H. unfold remove_on_block. rewrite H. reflexivity. Qed.
+Lemma rb_loop_ext c1 c2 ix0 hs : d_rb_heightkey c1 = d_rb_heightkey c2 -> forall st,
+  rb_loop c1 ix0 hs st = rb_loop c2 ix0 hs st.
+Proof.
+  intro H. induction hs as [|i r IH]; intro st; [reflexivity|]. cbn [rb_loop].
+  rewrite (remove_on_block_ext c1 c2 ix0 i st H). destruct (remove_on_block c2 ix0 i st); [apply IH|reflexivity].
+Qed.
+
+Theorem store_kind_irrelevant cfg full o s : d_meta_del_first cfg = false ->
+  step (with_store false cfg) full o s = step (with_store true cfg) full o s.
+Proof.
+  intro Hm.
+  assert (Hrb : forall t s0, rollback_chain (with_store false cfg) t s0 = rollback_chain (with_store true cfg) t s0).
+  { intros t s0. unfold rollback_chain.
+    rewrite (rb_loop_ext (with_store false cfg) (with_store true cfg)) by reflexivity.
+    unfold meta_ops. cbn [with_store d_meta_del_first]. rewrite Hm.
+    destruct (cm_height (cl_mem s0) <? t); [reflexivity|]. destruct (cm_height (cl_mem s0) =? t); [reflexivity|].
+    destruct (rb_loop _ _ _ _) as [[[bf ixb] cnt] [|]]; [|reflexivity].
+    destruct (t =? 0).
+    - rewrite !meta_after_del. reflexivity.
+    - destruct (tget (bf_bodies bf) t) as [[hd bh]|]; [|reflexivity].
+      destruct (nlookup t (ix_txset (cl_ix s0))); [|reflexivity]. rewrite !meta_after_put. reflexivity. }
+  assert (Hb : forall o' s0, step_base (with_store false cfg) full o' s0 = step_base (with_store true cfg) full o' s0).
+  { intros o' s0. destruct o'; cbn [step_base]; try reflexivity.
+    destruct full; [destruct (jw_rollback t (cl_jw s0)) as [[|p] j]|]; try reflexivity; apply Hrb. }
+  destruct o; cbn [step]; try apply Hb.
+  destruct ((h_number (b_hdr (e_blk e)) =? 0) || (cm_height (cl_mem s) <? h_number (b_hdr (e_blk e)))); [reflexivity|].
+  rewrite Hb. destruct (step_base (with_store true cfg) full (ORollback _) s) as [[|p] s1]; [apply Hb|reflexivity].
+Qed.
+
+Lemma run_with_store cfg full ops : d_meta_del_first cfg = false -> forall s,
+  run (with_store false cfg) full ops s = run (with_store true cfg) full ops s.
+Proof.
+  intro Hm. induction ops as [|o r IH]; intro s; [reflexivity|]. cbn [run].
+  rewrite (store_kind_irrelevant cfg full o s Hm). apply IH.
+Qed.
+Corollary run_store_kind_irrelevant full ops s :
+  run cfg_fixed_multi full ops s = run cfg_fixed full ops s.
+Proof. exact (run_with_store cfg_fixed full ops eq_refl s). Qed.
